@@ -91,15 +91,23 @@ class TupleCoord(recordclass.RecordClass, _IterableStub):
         return not self.__eq__(other)
 
     def __gt__(self, other):
+        if not isinstance(other, (tuple, list, TupleCoord)):
+            return NotImplemented
         return all(x > y for x, y in zip(self, other))
 
     def __lt__(self, other):
+        if not isinstance(other, (tuple, list, TupleCoord)):
+            return NotImplemented
         return all(x < y for x, y in zip(self, other))
 
     def __ge__(self, other):
+        if not isinstance(other, (tuple, list, TupleCoord)):
+            return NotImplemented
         return all(x >= y for x, y in zip(self, other))
 
     def __le__(self, other):
+        if not isinstance(other, (tuple, list, TupleCoord)):
+            return NotImplemented
         return all(x <= y for x, y in zip(self, other))
 
     def __repr__(self):
